@@ -441,3 +441,18 @@ def c18(tier, seed):
                     bounds={"constructor": "symbolic choice of init_automata_mapping / enumeration / session / session_table_create", "allocations": "each of the first 8 may fail"},
                     desc="automata constructors under failing allocation: NULL or fully initialised, no dereference of a missing allocation, no leak"))
     return qs
+
+
+def q_probe_cap(K=2):
+    return blkq("blk_probe_cap", "h_probe_cap", live=["parseProbe"], K=K, unwind=K + 4, no_std_checks=True,
+                bounds={"state": "observation counter at UINT32_MAX (stands for arbitrarily long floods), list prefix of 0..%d nodes" % K, "frame": "new distinct Probe/Train addressed to this station"},
+                desc="existence of a cap on retained observations, independent of the cap's name or value")
+
+
+@prop("C19", ["ledger kept by the verification port (live blocks / bytes); expected live set after every step = receive buffer + interface record + one block per observation + cached icon",
+              "boundedness: per-step growth <= 1 observation (all classes) and no growth once the counter is at its maximum (cap existence); the icon is bounded by what the platform returns",
+              "histories of any length by induction over the record invariant (count = list length <= cap)"])
+def c19(tier, seed):
+    qs = c01_block_queries(576, hello_pairs=((33, 31),))
+    qs += [q_probe_cap(), q_probe(tier, 3), q_query(tier, 3), q_reset(tier, 3), q_other(tier, 2), q_emit_send(), q_emit_full(3), q_qltlv("alltypes_576"), q_discover(32, 32)]
+    return qs
